@@ -22,6 +22,58 @@ from yv.model import AnalysisError, Model  # noqa: E402
 from yv.report import Report, finish  # noqa: E402
 
 
+# what each property's claim rests on (its trusted base among the other properties): the thorough tier re-runs those rules on the same parse
+DEPS = {
+    "C01": ["C14", "C13"], "C02": ["C14", "C01"], "C03": ["C01", "C04", "C13", "C14"], "C04": ["C14"], "C05": ["C14", "C04", "C13"],
+    "C06": ["C14"], "C07": ["C14", "C13"], "C08": ["C07", "C04", "C13"], "C09": ["C14", "C13"], "C10": ["C13"], "C11": ["C10", "C12"],
+    "C12": [], "C13": [], "C14": [], "C15": ["C04", "C14"], "C16": ["C14"], "C17": ["C14", "C13"], "C18": ["C14"], "C19": ["C14", "C13"], "C20": ["C14"],
+}
+
+
+def thorough(pid: str, model, rep: Report, args) -> None:
+    from yv.report import PROVEN, REFUTED, UNKNOWN
+    from yv.selftest import self_validate
+
+    own = {o.key for o in rep.obligations}
+    # 1. rules of the properties this one's claim rests on
+    n_dep = 0
+    for dep in DEPS.get(pid, []):
+        sub = Report(pid, "thorough")
+        importlib.import_module(f"yv.rules.{dep.lower()}").run(model, sub, "quick")
+        for ob in sub.obligations:
+            if ob.key in own:
+                continue
+            own.add(ob.key)
+            ob.inherited = dep
+            ob.required = False
+            rep.obligations.append(ob)
+            n_dep += 1
+        for e in sub.errors:
+            rep.error(f"[{dep}] {e}")
+    rep.stats["inherited_obligations"] = n_dep
+    rep.stats["inherited_from"] = DEPS.get(pid, [])
+    # 2. self-validation of this property's own rules on scratch variants of the current tree
+    base = {o.key for o in rep.obligations if o.verdict == REFUTED and not getattr(o, "inherited", None)}
+    src = os.path.join(args.repo, "src") if args.repo else "/repo/src"
+    results = self_validate(pid, src, base)
+    st = {"seeded_ran": 0, "seeded_caught": 0, "seeded_skipped": 0, "twins_ran": 0, "twins_silent": 0, "twins_skipped": 0, "details": []}
+    for r in results:
+        seed = r["kind"] == "seed"
+        if r["status"] != "ran":
+            st["seeded_skipped" if seed else "twins_skipped"] += 1
+            st["details"].append({"name": r["name"], "kind": r["kind"], "status": "skipped", "why": r.get("why", "")})
+            continue
+        st["seeded_ran" if seed else "twins_ran"] += 1
+        if r["ok"]:
+            st["seeded_caught" if seed else "twins_silent"] += 1
+        else:
+            rep.error(f"self-validation: {r['kind']} {r['name']}: {r.get('why', '')}")
+        st["details"].append({"name": r["name"], "kind": r["kind"], "ok": r["ok"], "new_refutations": sorted(set(r["refuted"]) - base)[:4]})
+    rep.stats["selftest"] = st
+    print(f"SELFTEST property={pid} seeded {st['seeded_caught']}/{st['seeded_ran']} caught ({st['seeded_skipped']} skipped), "
+          f"twins {st['twins_silent']}/{st['twins_ran']} silent ({st['twins_skipped']} skipped)")
+
+
 def main() -> int:
     ap = argparse.ArgumentParser()
     ap.add_argument("property")
@@ -48,6 +100,8 @@ def main() -> int:
         rep.stats["files_parsed"] = model.files_parsed
         rep.stats["source_digest"] = model.digest()
         mod.run(model, rep, args.tier)
+        if args.tier == "thorough":
+            thorough(pid, model, rep, args)
     except AnalysisError as e:
         print(f"ANALYSIS-ERROR: {e}")
         rep.error(str(e))
@@ -59,7 +113,7 @@ def main() -> int:
         import yv.report as r
 
         r.EVIDENCE_DIR = os.environ.get("YV_EVIDENCE_DIR", "/tmp/yv-evidence")
-        r.REPLAY_DIR = r.EVIDENCE_DIR
+        r.REPLAY_DIR = os.path.join(r.EVIDENCE_DIR, "replay")
     return finish(rep, seed)
 
 
